@@ -236,6 +236,64 @@ def correspondence(ctx):
     # the model's built-in validators against their Lean model: generated inputs on both sides of every tolerance + captured real calls
     # (after the grid: the generated part sets Food.conversions in this process; the grid's workers were forked before)
     validators.check(ctx)
+    yaml_driver_part(ctx)
+
+
+def yaml_driver_part(ctx):
+    """the shipped entry point itself: src/scenarios/run_scenarios_from_yaml.run_scenarios_from_yaml on the shipped argentina.yaml (its own country and
+    horizon; a seeded choice of its simulations in the quick tier), in web-interface mode (results returned and every table saved).  Every simulation
+    has to complete, and its percent fed has to be the one the same option set gives when the country is run directly."""
+    import contextlib, io, glob, yaml
+    import src.scenarios.run_scenarios_from_yaml as ry
+    from src.scenarios.run_model_no_trade import ScenarioRunnerNoTrade
+    cfg = yaml.safe_load(open(os.path.join(ctx.repo, "scenarios", "argentina.yaml")))
+    names = list(cfg["simulations"])
+    if ctx.quick:
+        keep = ctx.rng.sample(names, 3)
+        cfg["simulations"] = {n: cfg["simulations"][n] for n in names if n in keep}
+    for sim in cfg["simulations"].values():
+        sim["title"] = "verif_yaml_" + str(os.getpid()) + "_" + "".join(ch for ch in sim["title"] if ch.isalnum())
+    got = []
+    orig = ScenarioRunnerNoTrade.run_model_no_trade
+
+    def spy(self, *a, **k):
+        out = orig(self, *a, **k)
+        got.append((k.get("title"), dict(k.get("scenario_option") or {}), list(k.get("countries_list") or []), out))
+        return out
+    ScenarioRunnerNoTrade.run_model_no_trade = spy
+    err = None
+    try:
+        with contextlib.redirect_stdout(io.StringIO()):
+            ry.run_scenarios_from_yaml(copy.deepcopy(cfg), False, False, True)
+    except BaseException as e:  # noqa
+        if isinstance(e, KeyboardInterrupt):
+            raise
+        err = "%s: %s" % (type(e).__name__, str(e)[:200])
+    finally:
+        ScenarioRunnerNoTrade.run_model_no_trade = orig
+        for f in glob.glob(os.path.join(ctx.repo, "results", "verif_yaml_%d_*" % os.getpid())):
+            with contextlib.suppress(OSError):
+                os.remove(f)
+    done = {t for t, _, _, _ in got}
+    for name, sim in cfg["simulations"].items():
+        case = {"driver": "run_scenarios_from_yaml", "file": "argentina.yaml", "simulation": name, "web_interface": True}
+        if sim["title"] not in done:
+            ctx.violation("does-not-complete:yaml-driver:%s" % name, "argentina.yaml simulation %s does not complete through run_scenarios_from_yaml: %s" % (name, err), case)
+            continue
+        _, opt_used, countries, out = [g for g in got if g[0] == sim["title"]][0]
+        res = out[3] if isinstance(out, (list, tuple)) and len(out) > 3 else {}
+        opts = {k: v for k, v in sim.items() if k != "title"}
+        opts["NMONTHS"] = cfg["settings"]["NMONTHS"]
+        direct = pipeline.run_scenario("ARG", pipeline.options(**opts))
+        pf_direct = float(direct.result.percent_people_fed) if direct.result is not None else None
+        pf_yaml = [float(r.percent_people_fed) for r in res.values()]
+        if len(pf_yaml) != 1 or pf_direct is None or not math.isfinite(pf_yaml[0]) or pf_yaml[0] < 0:
+            ctx.violation("bad-result:yaml-driver:%s" % name, "argentina.yaml simulation %s returns %r through the YAML driver (direct run: %r)" % (name, pf_yaml, pf_direct), case)
+        elif pf_yaml[0] != pf_direct:
+            ctx.violation("yaml-driver-differs:%s" % name, "argentina.yaml simulation %s: %r percent fed through run_scenarios_from_yaml (web-interface mode), %r when the same "
+                          "options are run directly" % (name, pf_yaml[0], pf_direct), case)
+        ctx.case(("yaml-driver", name), nontrivial=True, sample=dict(case, percent_fed=pf_yaml[:1]))
+        ctx.count("yaml-driver-simulations")
 
 
 def search(ctx):
